@@ -41,6 +41,7 @@ var props = map[string]propSpec{
 		{Pkg: "registration", Fn: "VerifC01Token", Validate: 8, MustReach: []string{"issued", "not-issued"}, Panics: true},
 		{Pkg: "registration", Fn: "VerifC01Wrapped", Validate: 8, MustReach: []string{"issued", "not-issued"}, Panics: true},
 		{Pkg: "registration", Fn: "VerifC01Rewrapped", Validate: 8, MustReach: []string{"issued", "not-issued"}, Panics: true},
+		{Pkg: "registration", Fn: "VerifC06TokenRace", Validate: 4, MustReach: []string{"end"}},
 	}, Assumptions: with(), Explanation: "FetchNodeCredentials and everything under it from SSA, one harness per clause of the statement in inductive-step form: (a) arbitrary stored record vs arbitrary well-signed node-led request, (b) the server's own token with either half replaced, consumed or not, key enrolled or not, any maximum lifetime and clock, (c) registration info sealed by the server's wrapper / a foreign wrapper / garbage / a forged blob, and info re-sealed by a registered or unrelated node, each with matching or mismatching inner nonce and key; refusals leave the node records byte-identical"},
 	"C02": {Harnesses: []harnessSpec{
 		{Pkg: "protocol", Fn: "VerifC02Auth", Validate: 16, MustReach: []string{"authenticated", "rejected"}, Panics: true, ShardBits: 4},
@@ -72,6 +73,7 @@ var props = map[string]propSpec{
 		{Pkg: "registration", Fn: "VerifC06SingleUse", Validate: 8, MustReach: []string{"first-use-enrolled", "first-use-refused"}},
 		{Pkg: "registration", Fn: "VerifC06ExistingKey", Validate: 4, MustReach: []string{"enrolled", "refused"}},
 		{Pkg: "registration", Fn: "VerifC06Tamper", Validate: 8, MustReach: []string{"enrolled", "refused"}},
+		{Pkg: "registration", Fn: "VerifC06TokenRace", Validate: 4, MustReach: []string{"end"}},
 	}, Assumptions: with(), Explanation: "real token creation, honest node side and FetchNodeCredentials: single use by the same or another node, expiry for any maximum lifetime and clock, no enrollment over an existing record (with and without storage wrapper), and five tamperings of a stored token record against a second token with arbitrary creation instants; the HMAC key is never persisted"},
 	"C07": {Harnesses: []harnessSpec{
 		{Pkg: "protocol", Fn: "VerifC07RogueServer", Validate: 8, MustReach: []string{"connected", "refused"}, ShardBits: 2},
@@ -114,6 +116,7 @@ var props = map[string]propSpec{
 		{Pkg: "registration", Fn: "VerifC13WrappedFetchFaults", Validate: 8, MustReach: []string{"fault-hit", "issued", "not-issued"}},
 		{Pkg: "registration", Fn: "VerifC13TokenCreateFaults", Validate: 4, MustReach: []string{"fault-hit", "created", "failed"}},
 		{Pkg: "registration", Fn: "VerifC13TokenFetchFaults", Validate: 8, MustReach: []string{"fault-hit", "issued", "not-issued"}},
+		{Pkg: "registration", Fn: "VerifC06TokenRace", Validate: 4, MustReach: []string{"end"}},
 		{Pkg: "registration", Fn: "VerifC13DuplicateRecordFaults", Validate: 8, MustReach: []string{"fault-hit", "issued", "not-issued"}},
 		{Pkg: "registration", Fn: "VerifC13NodeSideFaults", Validate: 8, MustReach: []string{"fault-hit", "created", "creation-failed", "handled", "handling-failed"}},
 		{Pkg: "tls", Fn: "VerifC13GenerateFaults", Validate: 8, MustReach: []string{"fault-hit", "generated", "failed"}},
